@@ -57,10 +57,6 @@ def priceFails (isIn : Bool) (amt X Y fee : Nat) (res : Option Nat) : List Strin
       if isIn then legFails X Y fee amt v false
       else if decide (amt < Y) then legFails X Y fee v amt true else []
 
-/-- pools known before or after the step -/
-def poolsOf (pre post : State) : List (Denom × Nat) :=
-  post.pools ++ List.filter (fun e => !(List.elem e post.pools)) pre.pools
-
 def incr (pre post : State) (a : Addr) (d : Denom) : Nat := post.bank.balOf a d - pre.bank.balOf a d
 def decr (pre post : State) (a : Addr) (d : Denom) : Nat := pre.bank.balOf a d - post.bank.balOf a d
 
@@ -71,9 +67,13 @@ def obsLeg (pre post : State) (n : Nat) (i o : Denom) (exactOut : Bool) : List S
 
 /-- one step of the C01 monitor: clause names of everything that fails -/
 def stepFails (pre : State) (op : Op) (accepted : Bool) (post : State) : List (String × String) :=
-  let inv := (poolsOf pre post).foldl (fun acc e =>
-      acc ++ (if shareLEb (view pre e.1 e.2) (view post e.1 e.2) then [] else [("share-value", "")])
-          ++ (if poolInvB (view post e.1 e.2) then [] else [("pool-inv", "")])) []
+  -- share value is judged for the pools registered before the message (a pool exists once it is
+  -- registered), backing for the pools registered after it
+  let inv : List (String × String) :=
+    (pre.pools.flatMap fun e =>
+      if shareLEb (view pre e.1 e.2) (view post e.1 e.2) then [] else [("share-value", "")]) ++
+    (post.pools.flatMap fun e =>
+      if poolInvB (view post e.1 e.2) then [] else [("pool-inv", "")])
   let legs : List String :=
     match op with
     | .swap _ rcpt inD _ outD _ buy _ =>
